@@ -99,7 +99,24 @@ def run(ctx):
                 ctx.ob("C09.R3", fi, p.outcome[0] == "return" and p.retval == e["res"] and not any(x.kind in ("SEEK", "READ", "SUB") for x in rest),
                        "a successful alternative's result is returned with the stream left where it ended", key="success untouched", node=e.node)
     ctx.ob("C09.R3", fi, n_fail >= 1 and n_ok >= 1, "both the failing and the succeeding edge of an alternative were analysed", key="edges covered")
-    ctx.floor("C09.R3", 5)
+    # build side of "no trace of a failed alternative": an alternative never builds into the real stream; the only thing written there is
+    # the complete output of the alternative that succeeded
+    fb, pb = own_method_paths(ctx, "Select", "_build")
+    ok = bool(pb)
+    for p in pb:
+        for e in p.events:
+            if e.kind == "SUB" and e["m"] in ("_build", "build_stream") and e.a.get("stream") == STREAM:
+                ok = False
+            if e.kind in ("SEEK", "TELL") and e["stream"] == STREAM:
+                ok = False
+        wr = [e for e in p.events if e.kind == "WRITE" and e["stream"] == STREAM]
+        if p.returns:
+            subs = [e for e in p.events if e.kind == "SUB" and e["m"] == "build" and not e.raised]
+            ok = ok and len(wr) == 1 and bool(subs) and wr[0]["data"] == subs[-1]["res"]
+        else:
+            ok = ok and not wr
+    ctx.ob("C09.R3", fb, ok, "Select._build builds every alternative into a scratch buffer and writes only the successful alternative's complete output to the stream (a failing alternative cannot leave bytes behind)", key="build leaves no trace")
+    ctx.floor("C09.R3", 6)
 
     # ---------------------------------------------------------------- R4 GreedyRange
     fi, trs = traces(ctx, "GreedyRange", "_parse")
@@ -181,6 +198,9 @@ def run(ctx):
     ctx.ob("C09.R5", fi, seen_sel == {"none", "some"}, "both parsefrom branches were analysed", key="branches covered")
     ctx.floor("C09.R5", 12)
 
+    # Pointer / Peek inside a delimited region act on a BytesIOWithOffsets: its tell/seek translation (shared with C08.R3)
+    from . import C08
+    C08.substream_class_checks(ctx, "C09.R2")
     # R6: generated templates (engine T)
     try:
         from . import C09_templates
